@@ -1600,6 +1600,7 @@ pub fn c11(c: &Collector, g: &mut Guard) {
     c.sample(json!({"bytes": "e2 9e | 9c", "utf8": true, "expected_after_chunk_0": [], "expected_after_chunk_1": ["draw(\\u{279c})"]}));
     c.sample(json!({"bytes": "41 ff 41", "utf8": true, "expected": ["draw(A\\u{fffd}A)"]}));
     c.sample(json!({"bytes": "e0 80", "utf8": true, "expected": ["draw(\\u{fffd}\\u{fffd})"]}));
+    g.need(c, "bom_cases");
     g.need(c, "byte_strings");
     g.need(c, "chunk_ends_inside_multibyte");
     g.need(c, "invalid_streams");
